@@ -3,3 +3,5 @@ import LadimProofs.C05
 import LadimProofs.Laws
 import LadimProofs.C07
 import LadimProofs.C10
+import LadimProofs.C08
+import LadimProofs.C20
